@@ -301,7 +301,9 @@ class NodeCtx:
 
     # ---- opaque contents
     def new_content_in(self, mem, name, length, atoms, const=False, derived=None):
-        mem.o[name] = RecObj({0: (Ptr('fakevt', 0), 8), 8: (length, 8)}, None, const, 'content')
+        cells = {0: (Ptr('fakevt', 0), 8), 8: (NULL, 8), 16: (NULL, 8), 128: (length, 8)}      # a Content header (null identities, empty parameters); private data beyond it
+        self.empty_map(cells, 24, name)
+        mem.o[name] = RecObj(cells, None, const, 'content')
         self.contents[name] = dict(length=length, atoms=atoms, derived=derived)
         return Ptr(name, 0)
 
@@ -419,6 +421,7 @@ class NodeCtx:
                 'vf$slot%d' % self.slot('5carryERKNS_7IndexOfIlEEb'): s_carry, 'vf$slot%d' % self.slot('12shallow_copyEv'): s_shallow_copy,
                 'vf$slot%d' % self.slot('12getitem_nextERKSt10shared_ptrINS_9SliceItemEERKNS_5SliceERKNS_7IndexOfIlEE'): s_getitem_next,
                 'vf$slot%d' % self.slot('19referentially_equalERKSt10shared_ptr'): s_referentially_equal,
+                'vf$slot%d' % self.slot('9classnameB5cxx11Ev'): s_empty_string,
                 'vf$slot%d' % self.slot('6cachesERSt6vector'): stub_noop,                 # an opaque content holds no virtual-array caches
                 'vf$slot%d' % self.slot('7kernelsEv'): (lambda eng, fr, ins, st, name, argv: BV(0, 32))}
 
